@@ -105,9 +105,18 @@ pub fn install_handlers() {
             write_all_fd2(s.as_bytes());
         }
         if GUARD_DEPTH.with(|d| d.get()) == 0 && std::thread::current().name() == Some("main") {
-            // a panic of the harness itself, outside any guarded subject call
-            let s = format!("\n@@HARNESS-PANIC {} at {}\n", msg.replace('\n', " "), loc);
-            write_all_fd2(s.as_bytes());
+            if loc.contains("/harness/") || !loc.contains("/src/") {
+                // a panic of the harness itself, outside any guarded subject call
+                let s = format!("\n@@HARNESS-PANIC {} at {}\n", msg.replace('\n', " "), loc);
+                write_all_fd2(s.as_bytes());
+            } else {
+                // the subject panicked in a call the harness did not guard (it expected no panic there):
+                // report it like a crash of the current case, so that it becomes a verdict and not a machinery failure
+                let s = format!("\n@@SUBJECT-PANIC {} at {}\n", msg.replace('\n', " "), loc);
+                write_all_fd2(s.as_bytes());
+                emit_crash(b"CRASH", 100);
+                unsafe { libc::_exit(70) }
+            }
         }
         PANIC_MSG.with(|m| {
             let mut m = m.borrow_mut();
